@@ -75,6 +75,12 @@ TARGET_CONTEXTS = [t for t in TARGET_CONTEXTS if t]
 TARGET_CONSTRUCTS = [("$T", "__xonsh__.env['T']"), ("${t}", "__xonsh__.env[str(t)]"), ("${'a' + $B}", "__xonsh__.env[str('a' + __xonsh__.env['B'])]")]
 
 # positions the property excludes for C05 (still interesting for C04 when accepted)
+# the construct as the *base* of a binding-target chain (a Load position inside a for / with-as / comprehension target, which the property does
+# not exclude)
+# a matrix-multiplication operator written without a blank in front of the construct
+MATMUL_GLUE_CONTEXTS = ["x = a@{}\n", "x = (a)@{} + 1\n", "f(b @{})\n"]
+TARGET_BASE_CONTEXTS = ["for {}.a in y:\n    pass\n", "with c as {}[0]:\n    pass\n", "[0 for {}.a in y]\n", "for {}[0].b, k in y:\n    pass\n", "with c as ({}.a, d):\n    pass\n",
+                        "async def f():\n    async for {}.a[1] in y:\n        pass\n"]
 OTHER_TARGET_CONTEXTS = ["{} += 1\n", "{}: int = 1\n", "del {}\n", "{}.a = 1\n", "{}[0] = 1\n", "del {}[0]\n", "for {}.a in y:\n    pass\n", "{}: int\n", "x: {} = 1\n", "def f(a: {}) -> {}:\n    pass\n", "@{}\ndef f(): pass\n"]
 
 
